@@ -90,6 +90,10 @@ def run(ctx, rep):
                     rep.undecided('D1.dims', fit, call, 'order of the optimised parameters not derivable', construct=f'{c.name} optimiser order')
                     continue
                 v0 = dk.value(x0, fr) if x0 is not None else TOP
+                if any(n_.startswith('?') for n_ in order):
+                    rep.undecided('D1.dims', fit, call, f'which optimised parameter is the location / the scale is not derived from the objective ({order})',
+                                  construct=f'{c.name} optimiser order')
+                    continue
                 if isinstance(v0, Tup) and len(v0.elems) == len(order):
                     for name_, got in zip(order, v0.elems):
                         ok = compatible(got, want_kind(name_))
@@ -130,8 +134,30 @@ def _objective_order(prog, fit, call):
             p = f.params[0]
             for s in walk_no_nested(f.node):
                 if isinstance(s, ast.Assign) and isinstance(s.targets[0], ast.Tuple) and isinstance(s.value, ast.Name) and s.value.id == p:
-                    return [e.id for e in s.targets[0].elts if isinstance(e, ast.Name)]
+                    names = [e.id for e in s.targets[0].elts if isinstance(e, ast.Name)]
+                    roles = _scipy_roles(prog, f, names)
+                    return [roles.get(n_, '?' + n_) for n_ in names]
     return None
+
+
+def _scipy_roles(prog, f, names):
+    """Role ('loc' / 'scale' / shape) of each local of an objective, from where it is handed to SciPy: the last two entries of
+    the theta tuple of `<dist>.nnlf((shapes..., loc, scale), x)` or the loc= / scale= keywords of a SciPy distribution call."""
+    roles = {}
+    for c in walk_no_nested(f.node):
+        if not isinstance(c, ast.Call):
+            continue
+        nm = prog.resolve(f.module, c.func) or ''
+        if not nm.startswith('scipy.stats.'):
+            continue
+        if nm.endswith('.nnlf') and c.args and isinstance(c.args[0], (ast.Tuple, ast.List)) and len(c.args[0].elts) >= 2:
+            for e, role in zip(c.args[0].elts[-2:], ('loc', 'scale')):
+                if isinstance(e, ast.Name) and e.id in names:
+                    roles[e.id] = role
+        for kw in c.keywords:
+            if kw.arg in ('loc', 'scale') and isinstance(kw.value, ast.Name) and kw.value.id in names:
+                roles[kw.value.id] = kw.arg
+    return roles
 
 
 def _stat(prog, fn, e, xp):
